@@ -1437,74 +1437,94 @@ def io_paths(items):
     return paths
 
 
+def flatten_calls(items):
+    """item tree with every call replaced by the I/O it performs (who performs a write does not matter to the file)"""
+    out = []
+    for it in io_only(items):
+        if it[0] == 'call':
+            out.extend(flatten_calls(it[3]))
+        elif it[0] == 'loop':
+            inner = flatten_calls(it[3])
+            if inner:
+                out.append(('loop', it[1], it[2], inner) + tuple(it[4:]))
+        elif it[0] == 'alt':
+            a, b_ = flatten_calls(it[2]), flatten_calls(it[3])
+            if a or b_:
+                out.append(('alt', it[1], a, b_) + tuple(it[4:]))
+        else:
+            out.append(it)
+    return out
+
+
 def frame_writer_rule(prog, res, rule='frame-write'):
+    """data section = for every stored frame: for every point its four floats, then for every
+    sub-frame, for every channel its float.  Decided on the call-flattened I/O tree of Data::write
+    (local gather buffers expanded): which function performs a write is immaterial."""
     f = prog.fn('ezc3d::DataNS::Data::write', nparams=1)
-    seq = io_only(codec.Extractor(prog, 'w').seq_of(f))
-    inst = 'frame.layout'
+    flat = flatten_calls(codec.Extractor(prog, 'w').seq_of(f))
 
-    def only_loop(items, rep_re):
-        its = io_only(items)
-        if len(its) == 1 and its[0][0] == 'loop' and re.match(rep_re, pshow(its[0][1])):
-            return its[0]
-        return None
+    def where(it):
+        return it[5].loc(it[4]) if len(it) > 5 and it[5] is not None else f.loc()
 
-    def only_call(items, qn):
-        its = io_only(items)
-        if len(its) == 1 and its[0][0] == 'call' and its[0][1].qname.endswith(qn):
-            return its[0]
-        return None
-    fl = only_loop(seq, r'^this\._frames\.size$')
-    fc = only_call(fl[3], 'Frame::write') if fl else None
-    if not fc:
-        res.undecided(rule, inst, f.loc(), 'data writer is not one Frame::write per stored frame: layout cannot be tabulated', function=f.sig, expr=inst)
+    def sig(it):
+        return it[5].sig if len(it) > 5 and it[5] is not None else f.sig
+
+    def is_loop(it, rep_re):
+        return it[0] == 'loop' and it[1] is not None and re.match(rep_re, pshow(it[1])) is not None
+    RF, RP, RS, RC = r'^this\._frames\.size$', r'.*_points\._points\.size$', r'.*_analogs\._subframe\.size$', r'.*_channels\.size$'
+    if not (len(flat) == 1 and is_loop(flat[0], RF)):
+        res.undecided(rule, 'frame.layout', f.loc(), 'the data writer is not one loop over the stored frames (%s): layout cannot be tabulated' % [describe(x) for x in flat][:3], function=f.sig, expr='frame.layout')
         return
-    parts = io_only(fc[3])
-    names = [p_[1].qname.split('::')[-2] for p_ in parts if p_[0] == 'call']
-    if names == ['Analogs', 'Points']:
-        res.viol(rule, 'frame.order', fc[1].loc(), 'a frame must be written as its points followed by its analogs (found analogs first)', function=fc[1].sig, expr='frame.order')
+    body = flat[0][3]
+    if len(body) == 2 and is_loop(body[0], RS) and is_loop(body[1], RP):
+        res.viol(rule, 'frame.order', where(body[0]), 'a frame must be written as its points followed by its analogs (found analogs first)', function=sig(body[0]), expr='frame.order')
         return
-    if not (len(parts) == 2 and parts[0][0] == 'call' and parts[0][1].qname.endswith('Points::write') and parts[1][0] == 'call' and parts[1][1].qname.endswith('Analogs::write')):
-        res.undecided(rule, 'frame.order', fc[1].loc(), 'Frame::write does not delegate to Points::write and Analogs::write: layout cannot be tabulated (%s)' % [describe(p_) for p_ in parts][:3],
-                      function=fc[1].sig, expr='frame.order')
+    if not (len(body) == 2 and is_loop(body[0], RP) and is_loop(body[1], RS)):
+        res.undecided(rule, 'frame.order', where(flat[0]), 'a frame is not written as (loop over its points)(loop over its sub-frames): layout cannot be tabulated (%s)' % [describe(x) for x in body][:3],
+                      function=sig(flat[0]), expr='frame.order')
         return
-    res.ok(rule, 'frame.order', fc[1].loc(), 'points, then analogs', function=fc[1].sig, expr='frame.order')
-    pl = only_loop(parts[0][3], r'.*_points\._points\.size$')
-    pc = only_call(pl[3], 'Point::write') if pl else None
-    if pc:
-        pp = io_paths(pc[3])
-        want = [('_data[%d]' % c, '4', 'f', 32) for c in range(4)]
-        if pp is None:
-            res.undecided(rule, 'frame.point', pc[1].loc(), 'Point::write is not a straight-line sequence of writes', function=pc[1].sig, expr='frame.point')
-        else:
-            bad = None
-            for conds, ws in pp:
-                got = [(re.sub(r'^.*\._data', '_data', d.get('src') or ''), pshow(d.get('width')), d.get('src_tc'), d.get('src_tw')) for d in ws]
-                if got != want:
-                    bad = (conds, got)
-                    break
-            if bad is None:
-                res.ok(rule, 'frame.point', pc[1].loc(), 'x, y, z, residual = _data[0..3], 4 bytes each from 32-bit floats (on each of %d path(s))' % len(pp), function=pc[1].sig, expr='frame.point')
-            else:
-                res.viol(rule, 'frame.point', pc[1].loc(), 'a point is written as %s%s; specified %s' % (bad[1], (' when ' + ' && '.join(bad[0])) if bad[0] else '', want), function=pc[1].sig, expr='frame.point')
+    res.ok(rule, 'frame.order', where(body[0]), 'points, then analogs', function=sig(body[0]), expr='frame.order')
+    # points
+    pl = body[0]
+    pp = io_paths(pl[3])
+    want = [('_data[%d]' % c, '4', 'f', 32) for c in range(4)]
+    if pp is None:
+        res.undecided(rule, 'frame.point', where(pl), 'a point is not written by a straight-line sequence of writes (%s)' % [describe(x) for x in pl[3]][:3], function=sig(pl), expr='frame.point')
     else:
-        res.viol(rule, 'frame.point', parts[0][1].loc(), 'points are not written one Point::write per stored point', function=parts[0][1].sig, expr='frame.point')
-    sl = only_loop(parts[1][3], r'.*_analogs\._subframe\.size$')
-    sc = only_call(sl[3], 'SubFrame::write') if sl else None
-    cl = only_loop(sc[3], r'.*_channels\.size$') if sc else None
-    cc = only_call(cl[3], 'Channel::write') if cl else None
-    if cc:
-        pp = io_paths(cc[3])
-        bads = [x for x in (pp or []) if not (len(x[1]) == 1 and (x[1][0].get('src') or '').endswith('._data') and pshow(x[1][0].get('width')) == '4' and (x[1][0].get('src_tc'), x[1][0].get('src_tw')) == ('f', 32))]
-        ws = bads[0][1] if bads else (pp[0][1] if pp else [])
-        if pp is None:
-            res.undecided(rule, 'frame.analog', cc[1].loc(), 'Channel::write is not a straight-line sequence of writes', function=cc[1].sig, expr='frame.analog')
-        elif not bads and len(ws) == 1 and (ws[0].get('src') or '').endswith('._data') and pshow(ws[0].get('width')) == '4' and (ws[0].get('src_tc'), ws[0].get('src_tw')) == ('f', 32):
-            res.ok(rule, 'frame.analog', ws[0]['where'], 'sub-frames (outer) x channels (inner) x one 4-byte value from a 32-bit float', function=cc[1].sig, expr='frame.analog')
+        bad = None
+        for conds, ws in pp:
+            got = [(re.sub(r'^.*\._data', '_data', d.get('src') or ''), pshow(d.get('width')), d.get('src_tc'), d.get('src_tw')) for d in ws]
+            if got != want:
+                bad = (conds, got, ws)
+                break
+        fn_ = pp[0][1][0]['fn'] if pp and pp[0][1] else f
+        if bad is None:
+            res.ok(rule, 'frame.point', pp[0][1][0]['where'], 'x, y, z, residual = _data[0..3], 4 bytes each from 32-bit floats (on each of %d path(s))' % len(pp), function=fn_.sig, expr='frame.point')
         else:
-            res.viol(rule, 'frame.analog', cc[1].loc(), 'a channel is written as %s' % [(d.get('src'), pshow(d.get('width')), d.get('src_tc'), d.get('src_tw')) for d in ws],
-                     function=cc[1].sig, expr='frame.analog')
+            res.viol(rule, 'frame.point', (bad[2][0]['where'] if bad[2] else where(pl)), 'a point is written as %s%s; specified %s' % (bad[1], (' when ' + ' && '.join(bad[0])) if bad[0] else '', want),
+                     function=fn_.sig, expr='frame.point')
+    # analogs
+    sl = body[1]
+    inner = sl[3]
+    if not (len(inner) == 1 and is_loop(inner[0], RC)):
+        if len(inner) == 1 and inner[0][0] == 'loop' and inner[0][1] is not None and len(inner[0][3]) == 1 and is_loop(inner[0][3][0], RS):
+            res.viol(rule, 'frame.analog', where(inner[0]), 'analogs are written channel major; the format stores them sub-frame major (sub-frames x channels x one value)', function=sig(inner[0]), expr='frame.analog')
+        else:
+            res.undecided(rule, 'frame.analog', where(sl), 'a sub-frame is not written as one loop over its channels (%s): layout cannot be tabulated' % [describe(x) for x in inner][:3], function=sig(sl), expr='frame.analog')
+        return
+    cl = inner[0]
+    pp = io_paths(cl[3])
+    if pp is None:
+        res.undecided(rule, 'frame.analog', where(cl), 'a channel is not written by a straight-line sequence of writes', function=sig(cl), expr='frame.analog')
+        return
+    bads = [x for x in pp if not (len(x[1]) == 1 and (x[1][0].get('src') or '').endswith('._data') and pshow(x[1][0].get('width')) == '4' and (x[1][0].get('src_tc'), x[1][0].get('src_tw')) == ('f', 32))]
+    fn_ = pp[0][1][0]['fn'] if pp and pp[0][1] else f
+    if not bads:
+        res.ok(rule, 'frame.analog', pp[0][1][0]['where'], 'sub-frames (outer) x channels (inner) x one 4-byte value from a 32-bit float', function=fn_.sig, expr='frame.analog')
     else:
-        res.viol(rule, 'frame.analog', parts[1][1].loc(), 'analogs are not written sub-frame major (sub-frames x channels x one value)', function=parts[1][1].sig, expr='frame.analog')
+        ws = bads[0][1]
+        res.viol(rule, 'frame.analog', (ws[0]['where'] if ws else where(cl)), 'a channel is written as %s%s' % ([(d.get('src'), pshow(d.get('width')), d.get('src_tc'), d.get('src_tw')) for d in ws],
+                 (' when ' + ' && '.join(bads[0][0])) if bads[0][0] else ''), function=fn_.sig, expr='frame.analog')
 
 
 # ---------------------------------------------------------------------------------------------
